@@ -14,8 +14,22 @@ fn genesis(coin: &str) -> Option<BlockDesc> {
     let btc_key = unhex("04678afdb0fe5548271967f1a67130b7105cd6a828e03909a67962e0ea1f61deb649f6bc3f4cef38c4f35504e51ec112de5c384df7ba0b8d578a4c702b6bf11d5f").unwrap();
     let ltc_key = unhex("040184710fa689ad5023690c80f3a49c8f13f8d45b8c857fbcbc8bc4a8e4d3eb4b10f4d4604fa08dce601aaf0f470216fe1b51850b4acf21b179c45070ac7b03a9").unwrap();
     let nmc_key = unhex("04b620369050cd899ffbbc4e8ee51e8c4534a855bb463439d63d235d4779685d8b6f4870a238cf365ac94fa13ef9a2a22cd99d0d5ee86dcabcafce36c7acf43ce5").unwrap();
+    let myr_key = unhex("04e941763c7750969e751bee1ffbe96a651a0feb131db046546c219ea40bff40b95077dc9ba1c05af991588772d8daabbda57386c068fb9bc7477c5e28702d5eb9").unwrap();
     let times = b"The Times 03/Jan/2009 Chancellor on brink of second bailout for banks";
+    let mut version = 1u32;
     let (time, bits, nonce, ss, value, key): (u32, u32, u32, Vec<u8>, u64, Vec<u8>) = match coin {
+        "myriadcoin" => {
+            version = 2;
+            (1393164995, 0x1e0fffff, 2092903596, std_ss(b"2014-02-23 FT - G20 aims to add $2tn to global economy", &unhex("04ffff001d").unwrap(), &unhex("0104").unwrap()), 1000_0000_0000, myr_key)
+        }
+        "unobtanium" => (
+            1375548986,
+            0x1e0fffff,
+            1211565,
+            std_ss(b"San Francisco plaza evacuated after suspicious package is found", &unhex("04ffff001d").unwrap(), &unhex("0104").unwrap()),
+            1_0000_0000,
+            btc_key,
+        ),
         "bitcoin" => (1231006505, 0x1d00ffff, 2083236893, std_ss(times, &unhex("04ffff001d").unwrap(), &unhex("0104").unwrap()), 50_0000_0000, btc_key),
         "testnet3" => (1296688602, 0x1d00ffff, 414098458, std_ss(times, &unhex("04ffff001d").unwrap(), &unhex("0104").unwrap()), 50_0000_0000, btc_key),
         "litecoin" => (
@@ -38,7 +52,7 @@ fn genesis(coin: &str) -> Option<BlockDesc> {
         _ => return None,
     };
     Some(BlockDesc {
-        version: 1,
+        version,
         prev: Some(Bytes(vec![0; 32])),
         merkle: None,
         time,
@@ -83,7 +97,7 @@ pub fn run() -> i32 {
             bad += 1;
         }
     };
-    for c in ["bitcoin", "testnet3", "litecoin", "dogecoin", "namecoin"] {
+    for c in ["bitcoin", "testnet3", "litecoin", "dogecoin", "namecoin", "myriadcoin", "unobtanium"] {
         check(&format!("genesis {}", c), genesis_block(c).is_some());
     }
     // bitcoin genesis: merkle root and txid, as asserted in the repository's tests
